@@ -1,6 +1,6 @@
 """C08: the Merkle tree buffer and root are the binary Poseidon tree over row digests (bounded shapes, all data) + sibling agreement."""
 import re, itertools, os
-from .. import front, harness
+from .. import front, harness, rawhelper
 from ..interp import Incomplete, Sink, Interp, Region, Ptr
 from ..ir import IRError
 from ..poly import Poly, FV, C
@@ -48,7 +48,7 @@ def leaf_spec(pt, rows, cols, dim, batch):
 def run_one(mod, variant, rows, cols, dim, batch, nthreads):
     pt = PermTable()
     S = perm_summaries(mod, pt)
-    names = mod.find_re(r'^PoseidonGoldilocks::%s\(' % variant)
+    names = harness.family(mod, r'^PoseidonGoldilocks::%s\(' % variant)
     if len(names) != 1:
         return ('incomplete', 'builder %s not found' % variant, None)
     name = names[0]
@@ -58,7 +58,7 @@ def run_one(mod, variant, rows, cols, dim, batch, nthreads):
     nelem = 4 * (2 * rows - 1)
     try:
         eff = harness.run_routine(mod, name, S, values=vals, extents={'tree': 8 * nelem, 'input': 8 * rows * cols * dim},
-                                  opts={'omp_max_threads': 4})
+                                  opts={'omp_max_threads': 4, 'raw_helper': rawhelper.decide})
     except Sink as e:
         return ('refuted', '%s (%s)' % (e, ' <- '.join(e.stack[:2])), e.loc)
     except (Incomplete, IRError) as e:
@@ -77,6 +77,8 @@ def run_one(mod, variant, rows, cols, dim, batch, nthreads):
     rd = {k for k in eff.reads if k[0] == 'input'}
     if rd != {('input', 8 * i) for i in range(rows * cols * dim)}:
         return ('refuted', 'input read set is not exactly rows*cols*dim elements', None)
+    if harness.helper_refutation(eff):
+        return ('refuted', harness.helper_refutation(eff), None)
     return None
 
 
@@ -96,7 +98,7 @@ def _worker(args):
 def helper_checks(rep, mod):
     """getTreeNumElements(n) = 4(2n-1) and root() = last four elements, for symbolic n (all shapes)"""
     from ..poly import as_poly
-    names = mod.find_re(r'^MerklehashGoldilocks::getTreeNumElements\(')
+    names = harness.family(mod, r'^MerklehashGoldilocks::getTreeNumElements\(')
     for n in names:
         try:
             eff = harness.run_routine(mod, n, {})
@@ -106,7 +108,7 @@ def helper_checks(rep, mod):
                                            'returns %s, tree has 4(2n-1) elements' % eff.ret)
         except (Incomplete, Sink) as e:
             rep.incomplete('helper:getTreeNumElements', 'merkle-helpers', site_of(mod, n), str(e))
-    for n in mod.find_re(r'^MerklehashGoldilocks::root\('):
+    for n in harness.family(mod, r'^MerklehashGoldilocks::root\('):
         try:
             eff = harness.run_routine(mod, n, {}, extents={'root': 32})
             keys = sorted(eff.reads, key=str)
@@ -179,6 +181,8 @@ def run(rep, tier, seed):
                 (rep.refute if st == 'refuted' else rep.incomplete)(tag, 'merkle-bounded-shape', site, msg)
     rep.floor("configurations", n, 1200 if tier == "quick" else 20000)
     helper_checks(rep, front.module('avx2'))
+    from .. import rules
+    rules.rule_fpround(rep, r'^(PoseidonGoldilocks::merkletree|MerklehashGoldilocks::)', floor_double=1)
     rep.sample(dict(builders=[b[0] for b in BUILDERS], rows=rows_l, cols=cols_l, dims=dims, batches=batches, configurations=n))
     rep.assumptions += ['bounded in shape (universal in data); the permutation and the sponge are opaque / decided by C06, C07']
     rep.trusted = ['clang 14 lowering', 'glv interpreter']
